@@ -610,6 +610,7 @@ func indexOfSucc(b, s *ssa.BasicBlock) int {
 //   - by a Flush method of a protocol / transport itself (forwarding to what it wraps), or
 //   - after WriteMessageEnd of the same function; when that call's error is tested, on the edge
 //     where it succeeded.
+//
 // A Flush anywhere else (an error path "to clear the buffer") puts the abandoned prefix of a refused
 // message, or an empty datagram, on the wire.
 func (c *Ctx) checkFlushCompletesMessage(rule string) {
